@@ -1,9 +1,14 @@
 //! C06 executions: the SEQUENTIAL STEPPER (one step unit at a time, lifted with `translate_block`
 //! and run with the reference IL interpreter), and the two executions of the recovered function
 //! (reference interpreter `fv::refil::Machine`, falcon's `executor::Driver`).  All three produce
-//! the same kind of trace: one event per visited native instruction address (consecutive
-//! duplicates collapsed, MIPS `A+1` folded into `A`) carrying a digest of the machine state at
-//! that moment, and how the execution ended.
+//! the same kind of trace: one event per EXECUTION of a native instruction (for a MIPS branch: one
+//! for its first half at `A` and one for its deferred body at `A+1`, as falcon labels them)
+//! carrying a digest of the machine state at that moment, and how the execution ended.  On the
+//! function side a new event starts when the address of the IL instruction changes or when an IL
+//! location is re-entered within the current event (a one-instruction loop); on the stepper side
+//! every instruction graph that holds IL is one event.  Native instructions that lift to no IL
+//! instruction at all (direct branches: falcon turns them into guarded edges) are events on
+//! neither side.
 #![allow(dead_code)]
 
 use crate::prog::{Isa, Program};
@@ -51,6 +56,10 @@ pub struct Trace {
     pub final_state: Option<RefState>,
     /// free-form note for messages (where a fault happened)
     pub note: String,
+    /// (stepper) a Branch operation continued at a lifted native instruction that lifts to no IL
+    /// instruction: falcon's Branch semantics (`RefProgramLocation::from_address`) has no location
+    /// for such a target
+    pub branch_to_no_il: bool,
 }
 
 /// what the digests range over
@@ -125,11 +134,26 @@ struct Rec {
     cap: usize,
     snapshot_at: Option<usize>,
     snapshot: Option<RefState>,
+    /// address of the current event and the IL locations visited during it
+    cur: Option<u64>,
+    visited: BTreeSet<(usize, usize)>,
+    /// steps since the last event
+    idle: usize,
 }
 
 impl Rec {
-    fn last(&self) -> Option<u64> {
-        self.evs.last().map(|e| e.0)
+    fn new(cap: usize, snapshot_at: Option<usize>) -> Rec {
+        Rec { evs: Vec::new(), cap, snapshot_at, snapshot: None, cur: None, visited: BTreeSet::new(), idle: 0 }
+    }
+    /// does the IL instruction at location `key` with address `a` start a new event?
+    fn starts_event(&self, a: u64, key: (usize, usize)) -> bool {
+        self.cur != Some(a) || self.visited.contains(&key)
+    }
+    fn begin(&mut self, a: u64, digest: u64) {
+        self.evs.push((a, digest));
+        self.cur = Some(a);
+        self.visited.clear();
+        self.idle = 0;
     }
 }
 
@@ -242,35 +266,42 @@ fn run_graph(view: &FnView, state: RefState) -> Result<(RefState, Option<u64>, b
 }
 
 #[allow(clippy::too_many_arguments)]
-pub fn run_stepper(p: &Program, units: &BTreeMap<u64, Unit>, init: &RefState, lifted: &BTreeSet<u64>, w: &Watch, cap: usize, snapshot_at: Option<usize>, skip_addr: &BTreeSet<u64>) -> Trace {
-    let mut rec = Rec { evs: Vec::new(), cap, snapshot_at, snapshot: None };
+pub fn run_stepper(p: &Program, units: &BTreeMap<u64, Unit>, init: &RefState, lifted: &BTreeSet<u64>, w: &Watch, cap: usize, snapshot_at: Option<usize>) -> Trace {
+    let mut rec = Rec::new(cap, snapshot_at);
     let mut state = init.clone();
     let mut pc = p.entry;
     let mut md = mem_digest_ref(w, &state);
     let mut taken = 0usize;
-    let mut units_run = 0usize;
+    // an event-free stretch consists of direct branches only; longer than the program = a cycle
+    let idle_limit = p.insns.len() + 8;
+    let to_no_il = std::cell::Cell::new(false);
     let fin = |rec: Rec, end: End, state: RefState, md: u64, taken: usize, note: String| -> Trace {
-        Trace { evs: rec.evs, end, final_digest: scal_digest_ref(w, &state) ^ md.rotate_left(1), taken, snapshot: rec.snapshot, final_state: Some(state), note }
+        Trace { evs: rec.evs, end, final_digest: scal_digest_ref(w, &state) ^ md.rotate_left(1), taken, snapshot: rec.snapshot, final_state: Some(state), note, branch_to_no_il: to_no_il.get() }
     };
     loop {
-        if units_run >= cap * 3 + 16 {
+        if rec.idle > idle_limit {
             return fin(rec, End::Stall, state, md, taken, String::new());
         }
-        units_run += 1;
+        rec.idle += 1;
         let Some(u) = units.get(&pc) else {
             return fin(rec, End::Fault("pc-outside-lifted-set".into()), state, md, taken, format!("pc 0x{:x}", pc));
         };
         let mut branch: Option<u64> = None;
-        for (k, (_, view)) in u.graphs.iter().enumerate() {
-            let a = u.addrs[k];
-            if rec.last() != Some(a) && !skip_addr.contains(&a) {
+        for (k, (raw, view)) in u.graphs.iter().enumerate() {
+            let a = *raw;
+            // a graph without any IL instruction (falcon omits direct branches from the IL and
+            // expresses them as guarded edges; the deferred MIPS branch body A+1 of a direct branch
+            // is empty as well): nothing executes there and the recovered function has nothing to
+            // show for it, so it is not an event on either side
+            let silent = u.il_instrs[k] == 0;
+            if !silent {
                 if rec.evs.len() >= rec.cap {
                     return fin(rec, End::Cap, state, md, taken, String::new());
                 }
                 if rec.snapshot_at == Some(rec.evs.len()) {
                     rec.snapshot = Some(state.clone());
                 }
-                rec.evs.push((a, scal_digest_ref(w, &state) ^ md.rotate_left(1)));
+                rec.begin(a, scal_digest_ref(w, &state) ^ md.rotate_left(1));
             }
             match run_graph(view, state.clone()) {
                 Ok((s, b, stored)) => {
@@ -290,6 +321,9 @@ pub fn run_stepper(p: &Program, units: &BTreeMap<u64, Unit>, init: &RefState, li
             Some(t) => {
                 if !lifted.contains(&t) {
                     return fin(rec, End::Exit(t), state, md, taken, String::new());
+                }
+                if units.get(&t).map(|u| u.il_instrs[0] == 0).unwrap_or(false) {
+                    to_no_il.set(true);
                 }
                 taken += 1;
                 t
@@ -330,54 +364,57 @@ pub fn run_stepper(p: &Program, units: &BTreeMap<u64, Unit>, init: &RefState, li
 // ---------------------------------------------------------------------------------------------
 // the recovered function under the reference interpreter
 
-/// where a Branch to `target` continues inside the function: the first IL instruction of the
-/// native instruction at `target`
+/// Where a Branch to `target` continues inside the function: falcon defines it
+/// (`RefProgramLocation::from_address`, used by `Driver::step`) as "the first Instruction with the
+/// given address", blocks taken in index order.  (A native instruction whose graph has several
+/// blocks starts several blocks with its address; the graph's entry block has the lowest index.)
 fn locate(view: &FnView, target: u64) -> Result<Loc, String> {
-    let mut found = Vec::new();
     for (b, is) in &view.blocks {
-        for (pos, i) in is.iter().enumerate() {
-            if i.address == Some(target) && (pos == 0 || is[pos - 1].address != Some(target)) {
-                found.push(Loc::Instr(*b, i.index));
+        for i in is.iter() {
+            if i.address == Some(target) {
+                return Ok(Loc::Instr(*b, i.index));
             }
         }
     }
-    match found.len() {
-        1 => Ok(found[0]),
-        0 => Err("branch-target-not-in-function".into()),
-        _ => Err("branch-target-in-several-places".into()),
-    }
+    Err("branch-target-not-in-function".into())
+}
+
+/// An event-free stretch of the function run passes through the IL of one native instruction,
+/// empty blocks and edges; anything longer than the whole function is an event-free cycle.
+fn idle_limit_of(view: &FnView) -> usize {
+    2 * (view.blocks.len() + view.edges.len() + view.blocks.values().map(|b| b.len()).sum::<usize>()) + 16
 }
 
 #[allow(clippy::too_many_arguments)]
-pub fn run_ref(isa: Isa, view: &FnView, init: &RefState, lifted: &BTreeSet<u64>, manual_tails: &BTreeSet<u64>, w: &Watch, cap: usize, snapshot_at: Option<usize>) -> Trace {
-    let mut rec = Rec { evs: Vec::new(), cap, snapshot_at, snapshot: None };
+pub fn run_ref(isa: Isa, view: &FnView, init: &RefState, lifted: &BTreeSet<u64>, no_il: &BTreeSet<u64>, manual_tails: &BTreeSet<u64>, w: &Watch, cap: usize, snapshot_at: Option<usize>) -> Trace {
+    let mut rec = Rec::new(cap, snapshot_at);
     let mut m = match Machine::new(view, init.clone()) {
         Ok(m) => m,
         Err(f) => {
-            return Trace { evs: vec![], end: End::Fault(format!("entry:{}", f.kind())), final_digest: 0, taken: 0, snapshot: None, final_state: None, note: String::new() };
+            return Trace { evs: vec![], end: End::Fault(format!("entry:{}", f.kind())), final_digest: 0, taken: 0, snapshot: None, final_state: None, note: String::new(), branch_to_no_il: false };
         }
     };
     let mut md = mem_digest_ref(w, &m.state);
-    let il_cap = cap * 200 + 2000;
-    let mut il = 0usize;
+    let idle_limit = idle_limit_of(view);
     let mut note = String::new();
+    let _ = isa;
     let end = loop {
-        if il >= il_cap {
+        if rec.idle > idle_limit {
             break End::Stall;
         }
-        il += 1;
+        rec.idle += 1;
         if let Loc::Instr(b, i) = m.loc {
             if let Some(a) = view.instr(b, i).and_then(|iv| iv.address) {
-                let a = fold(isa, a);
-                if rec.last() != Some(a) {
+                if rec.starts_event(a, (b, i)) {
                     if rec.evs.len() >= rec.cap {
                         break End::Cap;
                     }
                     if rec.snapshot_at == Some(rec.evs.len()) {
                         rec.snapshot = Some(m.state.clone());
                     }
-                    rec.evs.push((a, scal_digest_ref(w, &m.state) ^ md.rotate_left(1)));
+                    rec.begin(a, scal_digest_ref(w, &m.state) ^ md.rotate_left(1));
                 }
+                rec.visited.insert((b, i));
             }
         }
         let here = m.loc;
@@ -388,6 +425,36 @@ pub fn run_ref(isa: Isa, view: &FnView, init: &RefState, lifted: &BTreeSet<u64>,
                 }
                 let dest = match locate(view, target) {
                     Ok(l) => l,
+                    Err(e) if e == "branch-target-not-in-function" && no_il.contains(&target) => {
+                        // The target is a lifted native instruction without any IL instruction (a
+                        // direct branch): a Branch operation cannot name it.  Continue along the one
+                        // enabled (manual) edge if there is one.
+                        let mut enabled = Vec::new();
+                        if let Loc::Instr(b, i) = here {
+                            if view.blocks[&b].last().map(|x| x.index) == Some(i) {
+                                for e in view.out_edges(b) {
+                                    let on = match &e.cond {
+                                        None => true,
+                                        Some(c) => eval(c, &m.state.scalars).map(|v| v.is_one()).unwrap_or(false),
+                                    };
+                                    if on {
+                                        enabled.push(e.tail);
+                                    }
+                                }
+                            }
+                        }
+                        if enabled.len() == 1 {
+                            match view.block_entry(enabled[0]) {
+                                Ok(l) => {
+                                    m.loc = l;
+                                    continue;
+                                }
+                                Err(f) => break End::Fault(f.kind().to_string()),
+                            }
+                        }
+                        note = format!("Branch to 0x{:x} at {:?}", target, here);
+                        break End::Fault("branch-target-has-no-il".into());
+                    }
                     Err(e) => {
                         note = format!("Branch to 0x{:x} at {:?}", target, here);
                         break End::Fault(e);
@@ -449,7 +516,7 @@ pub fn run_ref(isa: Isa, view: &FnView, init: &RefState, lifted: &BTreeSet<u64>,
         }
     };
     let fd = scal_digest_ref(w, &m.state) ^ md.rotate_left(1);
-    Trace { evs: rec.evs, end, final_digest: fd, taken: 0, snapshot: rec.snapshot, final_state: Some(m.state), note }
+    Trace { evs: rec.evs, end, final_digest: fd, taken: 0, snapshot: rec.snapshot, final_state: Some(m.state), note, branch_to_no_il: false }
 }
 
 // ---------------------------------------------------------------------------------------------
@@ -457,13 +524,13 @@ pub fn run_ref(isa: Isa, view: &FnView, init: &RefState, lifted: &BTreeSet<u64>,
 
 #[allow(clippy::too_many_arguments)]
 pub fn run_driver(isa: Isa, function: &il::Function, arch: RC<dyn Architecture>, init: &RefState, lifted: &BTreeSet<u64>, w: &Watch, cap: usize, snapshot_at: Option<usize>) -> Trace {
-    let mut rec = Rec { evs: Vec::new(), cap, snapshot_at, snapshot: None };
+    let mut rec = Rec::new(cap, snapshot_at);
     let view = FnView::of(function);
     let start = match view.entry_loc() {
         Ok(Loc::Instr(b, i)) => il::FunctionLocation::Instruction(b, i),
         Ok(Loc::Empty(b)) => il::FunctionLocation::EmptyBlock(b),
         _ => {
-            return Trace { evs: vec![], end: End::Fault("entry".into()), final_digest: 0, taken: 0, snapshot: None, final_state: None, note: String::new() };
+            return Trace { evs: vec![], end: End::Fault("entry".into()), final_digest: 0, taken: 0, snapshot: None, final_state: None, note: String::new(), branch_to_no_il: false };
         }
     };
     let mut program = il::Program::new();
@@ -471,28 +538,28 @@ pub fn run_driver(isa: Isa, function: &il::Function, arch: RC<dyn Architecture>,
     let fidx = program.functions()[0].index().unwrap_or(0);
     let mut driver = Driver::new(RC::new(program), il::ProgramLocation::new(Some(fidx), start), ref_to_falcon(init), arch);
     let mut md = mem_digest_falcon(w, driver.state());
-    let il_cap = cap * 200 + 2000;
-    let mut il = 0usize;
+    let idle_limit = idle_limit_of(&view);
     let mut note = String::new();
     let big = init.mem.big_endian;
+    let _ = isa;
     let end = loop {
-        if il >= il_cap {
+        if rec.idle > idle_limit {
             break End::Stall;
         }
-        il += 1;
+        rec.idle += 1;
         // inspect the current location
         let mut is_store = false;
         let mut exit: Option<u64> = None;
         let mut fault: Option<String> = None;
-        let mut ev: Option<u64> = None;
+        let mut ev: Option<(u64, (usize, usize))> = None;
         {
             let rloc = match driver.location().apply(driver.program()) {
                 Ok(l) => l,
                 Err(e) => break End::Fault(format!("driver-location:{}", e)),
             };
-            if let il::RefFunctionLocation::Instruction(_, ins) = rloc.function_location() {
+            if let il::RefFunctionLocation::Instruction(blk, ins) = rloc.function_location() {
                 if let Some(a) = ins.address() {
-                    ev = Some(fold(isa, a));
+                    ev = Some((a, (blk.index(), ins.index())));
                 }
                 match ins.operation() {
                     il::Operation::Store { .. } => is_store = true,
@@ -508,16 +575,17 @@ pub fn run_driver(isa: Isa, function: &il::Function, arch: RC<dyn Architecture>,
                 }
             }
         }
-        if let Some(a) = ev {
-            if rec.last() != Some(a) {
+        if let Some((a, key)) = ev {
+            if rec.starts_event(a, key) {
                 if rec.evs.len() >= rec.cap {
                     break End::Cap;
                 }
                 if rec.snapshot_at == Some(rec.evs.len()) {
                     rec.snapshot = Some(falcon_to_ref(w, driver.state(), big));
                 }
-                rec.evs.push((a, scal_digest_falcon(w, driver.state()) ^ md.rotate_left(1)));
+                rec.begin(a, scal_digest_falcon(w, driver.state()) ^ md.rotate_left(1));
             }
+            rec.visited.insert(key);
         }
         if let Some(f) = fault {
             break End::Fault(f);
@@ -548,7 +616,7 @@ pub fn run_driver(isa: Isa, function: &il::Function, arch: RC<dyn Architecture>,
     };
     let fd = scal_digest_falcon(w, driver.state()) ^ md.rotate_left(1);
     let fs = falcon_to_ref(w, driver.state(), big);
-    Trace { evs: rec.evs, end, final_digest: fd, taken: 0, snapshot: rec.snapshot, final_state: Some(fs), note }
+    Trace { evs: rec.evs, end, final_digest: fd, taken: 0, snapshot: rec.snapshot, final_state: Some(fs), note, branch_to_no_il: false }
 }
 
 pub fn error_kind(e: &falcon::Error) -> String {
